@@ -79,6 +79,19 @@ impl RttCalcuator {
     }
 }
 
+#[cfg(feature = "verif-hooks")]
+impl RttCalcuator {
+    pub(crate) fn verif_state(&self) -> (Duration, Duration, Duration, Duration, Duration) {
+        (
+            self.rto,
+            self.srtt,
+            self.rttvar,
+            self.granularity,
+            self.configured_rto,
+        )
+    }
+}
+
 #[cfg(test)]
 mod rtt_calculator_tests {
     use super::*;
